@@ -128,16 +128,23 @@ Lemma content_range_eq s e n : contentRangeValue s e n = content_range s e n.
 Proof. reflexivity. Qed.
 
 Section Fs.
-  Variables (size mtime : Z) (compress : bool) (range ims ae : bytes) (compressible : bool) (zlen : Z).
+  Variables (size mtime now : Z) (compress brotli zstd : bool) (range ims ae : bytes) (compressible : bool) (zlen : Z).
   Hypothesis Hr : wf_bytes range.
   Hypothesis Hi : wf_bytes ims.
 
-  (* 304 exactly when the file is not newer than If-Modified-Since (to the second), whatever else is asked *)
+  (* the cache file of a compressed variant carries the original file's modification time *)
+  Lemma compressed_mtime : compressedFileMtime now mtime = mtime.
+  Proof. reflexivity. Qed.
+  Lemma served_mtime (b : bool) : (if b then compressedFileMtime now mtime else mtime) = mtime.
+  Proof. destruct b; reflexivity. Qed.
+
+  (* 304 exactly when the ORIGINAL file is not newer than If-Modified-Since (to the second), whatever else is asked and
+     whichever representation (identity, gzip, br, zstd) would be served *)
   Theorem status_304_iff ranges isHead :
-    fo_status (fs_handle size mtime ranges compress isHead range ims ae compressible zlen) = 304
+    fo_status (fs_handle size mtime now ranges compress brotli zstd isHead range ims ae compressible zlen) = 304
     <-> not_newer ims mtime = true.
-  Proof.
-    unfold fs_handle. rewrite (ims_equiv ims mtime Hi). destruct (not_newer ims mtime); cbn [negb].
+  Proof using Hi.
+    unfold fs_handle. rewrite served_mtime, (ims_equiv ims mtime Hi). destruct (not_newer ims mtime); cbn [negb].
     - split; reflexivity.
     - split; [|discriminate]. intros H.
       destruct (ranges && match range with [] => false | _ => true end).
@@ -145,22 +152,29 @@ Section Fs.
       + cbn in H. discriminate.
   Qed.
 
+  (* every 200 / 206 carries Last-Modified = the original file's modification time, for every coding, GET and HEAD *)
+  Theorem last_modified_is_file_mtime ranges isHead :
+    let o := fs_handle size mtime now ranges compress brotli zstd isHead range ims ae compressible zlen in
+    (fo_status o = 200 \/ fo_status o = 206) -> fo_lastModified o = spec_format_http_date mtime.
+  Proof.
+    unfold fs_handle. rewrite served_mtime. destruct (IfModifiedSince ims mtime); cbn [negb].
+    - destruct (ranges && match range with [] => false | _ => true end); [|reflexivity].
+      destruct (ParseByteRange range _); [reflexivity|]. cbn. intros [H|H]; discriminate.
+    - cbn. intros [H|H]; discriminate.
+  Qed.
+
   Lemma nonempty_true (A : Type) (l : bytes) (x : A) (y : A) : l <> [] -> match l with [] => x | _ => y end = y.
   Proof. destruct l; [contradiction|reflexivity]. Qed.
 
-  (* a request with a Range header is never served from the compressed variant *)
-  Lemma ranged_len : range <> [] ->
-    (if (match range with [] => compress && hasAcceptEncoding ae strGzip | _ => false end) && compressible then zlen else size) = size.
-  Proof. destruct range; [contradiction|reflexivity]. Qed.
-
-  (* 206 with exactly the requested slice and the matching Content-Range, for a satisfiable single range *)
+  (* 206 with exactly the requested slice and the matching Content-Range, for a satisfiable single range;
+     a request with a Range header is never served from a compressed variant *)
   Theorem range_206 s e : not_newer ims mtime = false -> range <> [] -> spec_range range size = RSat s e ->
-    fs_handle size mtime true compress false range ims ae compressible zlen =
-    FsOut 206 (content_range s e size) (e - s + 1) (BSlice s (e - s + 1)) false (spec_format_http_date mtime) true
+    fs_handle size mtime now true compress brotli zstd false range ims ae compressible zlen =
+    FsOut 206 (content_range s e size) (e - s + 1) (BSlice s (e - s + 1)) [] (spec_format_http_date mtime) true
     /\ 0 <= s /\ s <= e /\ e < size.
   Proof.
-    intros Hn Hne Hs. unfold fs_handle. rewrite (ims_equiv ims mtime Hi), Hn. cbn [negb].
-    rewrite !(nonempty_true _ range _ _ Hne). cbn [andb]. rewrite (range_exact range size Hr), Hs.
+    intros Hn Hne Hs. unfold fs_handle. rewrite !(nonempty_true _ range _ _ Hne). cbn [andb].
+    rewrite (ims_equiv ims mtime Hi), Hn. cbn [negb]. rewrite (range_exact range size Hr), Hs.
     split; [reflexivity|].
     apply (range_invariant range size s e Hr). now rewrite (range_exact range size Hr), Hs.
   Qed.
@@ -168,34 +182,45 @@ Section Fs.
   (* 416 for an unsatisfiable (or malformed) Range value *)
   Theorem range_416 isHead : not_newer ims mtime = false -> range <> [] ->
     (spec_range range size = RUnsat \/ spec_range range size = RInvalid) ->
-    fo_status (fs_handle size mtime true compress isHead range ims ae compressible zlen) = 416.
+    fo_status (fs_handle size mtime now true compress brotli zstd isHead range ims ae compressible zlen) = 416.
   Proof.
-    intros Hn Hne Hs. unfold fs_handle. rewrite (ims_equiv ims mtime Hi), Hn. cbn [negb].
-    rewrite !(nonempty_true _ range _ _ Hne). cbn [andb]. rewrite (range_exact range size Hr).
+    intros Hn Hne Hs. unfold fs_handle. rewrite !(nonempty_true _ range _ _ Hne). cbn [andb].
+    rewrite (ims_equiv ims mtime Hi), Hn. cbn [negb]. rewrite (range_exact range size Hr).
     destruct Hs as [-> | ->]; reflexivity.
   Qed.
 
   (* 200 with the full content otherwise: no Range header, or byte ranges disabled *)
   Theorem full_200 ranges : not_newer ims mtime = false -> (range = [] \/ ranges = false) ->
-    let gz := match range with [] => compress && hasAcceptEncoding ae strGzip | _ => false end && compressible in
-    let len := if gz then zlen else size in
-    fs_handle size mtime ranges compress false range ims ae compressible zlen =
-    FsOut 200 [] len (BSlice 0 len) gz (spec_format_http_date mtime) ranges.
+    let coding := match range with [] => if compress then chooseCoding brotli zstd ae else [] | _ => [] end in
+    let coded := match coding with [] => false | _ => true end && compressible in
+    let len := if coded then zlen else size in
+    fs_handle size mtime now ranges compress brotli zstd false range ims ae compressible zlen =
+    FsOut 200 [] len (BSlice 0 len) (if coded then coding else []) (spec_format_http_date mtime) ranges.
   Proof using Hi.
-    intros Hn Hc. unfold fs_handle. rewrite (ims_equiv ims mtime Hi), Hn. cbn [negb].
+    intros Hn Hc. unfold fs_handle. rewrite served_mtime, (ims_equiv ims mtime Hi), Hn. cbn [negb].
     destruct Hc as [Hc | Hc]; rewrite Hc; [rewrite andb_false_r|rewrite andb_false_l]; reflexivity.
   Qed.
 
   (* HEAD: the same status and headers as GET, and no body *)
   Theorem head_same ranges :
-    let g := fs_handle size mtime ranges compress false range ims ae compressible zlen in
-    let h := fs_handle size mtime ranges compress true range ims ae compressible zlen in
+    let g := fs_handle size mtime now ranges compress brotli zstd false range ims ae compressible zlen in
+    let h := fs_handle size mtime now ranges compress brotli zstd true range ims ae compressible zlen in
     fo_status h = fo_status g /\ fo_contentRange h = fo_contentRange g /\ fo_contentLength h = fo_contentLength g
-    /\ fo_gzip h = fo_gzip g /\ fo_lastModified h = fo_lastModified g /\ fo_acceptRanges h = fo_acceptRanges g
+    /\ fo_coding h = fo_coding g /\ fo_lastModified h = fo_lastModified g /\ fo_acceptRanges h = fo_acceptRanges g
     /\ fo_body h = BNone.
   Proof.
-    unfold fs_handle. destruct (IfModifiedSince ims mtime); cbn [negb]; [|repeat split; reflexivity].
+    unfold fs_handle. destruct (IfModifiedSince ims _); cbn [negb]; [|repeat split; reflexivity].
     destruct (ranges && match range with [] => false | _ => true end); [|repeat split; reflexivity].
     destruct (ParseByteRange range _); repeat split; reflexivity.
   Qed.
 End Fs.
+
+(* ---------------- a compressed sibling that already exists ---------------- *)
+(* the validator of the compressed variant is the file's own modification time when there is no sibling, when the
+   sibling is at least a second older (it is re-created) or carries the same time *)
+Lemma sibling_ok now orig sib : siblingStale orig sib = true \/ sib = orig ->
+  compressedVariantMtime now orig (Some sib) = orig.
+Proof. unfold compressedVariantMtime. intros [-> | ->]; [reflexivity|]. destruct (siblingStale orig orig); reflexivity. Qed.
+(* ... but NOT when the sibling is newer than the file (known finding stale-compressed-sibling) *)
+Lemma sibling_refuted : exists now orig sib, compressedVariantMtime now orig (Some sib) <> orig.
+Proof. exists 2, 0, 1. vm_compute. discriminate. Qed.
